@@ -696,7 +696,8 @@ def inuse_family(ctx, n):
     from harness import impl
     rng = ctx.rng
     for _ in range(n):
-        impl.reset()
+        # (in logging mode a refused edit is reported, not raised: the links must be right all the same)
+        impl.reset(raise_exceptions=rng.random() < 0.6)
         where = rng.choice(['p|a{left:0}', '@media tv{p|a{left:0}}', '@media tv{@media print{p|a{left:0}}}', 'b:not(p|a){left:0}', 'a{left:0}'])
         text = ('@namespace p "u"; @namespace q "v"; ' + where + ' x{top:0;color:red} '
                 '@page{margin:0;@top-left{color:red}@top-left{left:0;color:blue}} @media print{y{right:0}}')
@@ -734,7 +735,8 @@ def inuse_family(ctx, n):
                 elif op == 'container-csstext-rejected':
                     cont = rng.choice([r for r in sheet.cssRules if r.type in (r.MEDIA_RULE, r.PAGE_RULE)] + [sheet])
                     cont.cssText = rng.choice(['a {}', '@media print', '@media print {a{left:0}} junk', '@page', '@media tv{a{left:0}} @media tv{}',
-                                               '@media tv {@import "x";}', '@page {margin:0}} x', 'p|zz{} }}', '@media bogus!{a{}}'])
+                                               '@media tv {@import "x";}', '@page {margin:0}} x', 'p|zz{} }}', '@media bogus!{a{}}', '@media 123bad { c {top: 0} }', '@media tv, {c{top:0} @media print{d{left:0}}}',
+                                               '@media (bad { c {top: 0} }', '@page :nope {margin:0;@top-left{left:0}}', '@media tv {c{top:0} @page{margin:0} junk{}'])
                 elif op == 'insert-rulelist':
                     other = cssutils.parseString(rng.choice([
                         'm{left:0} @font-face{font-family:x} n{top:0}', 'm{left:0} @page{margin:0}', '@charset "utf-8"; m{left:0}',
